@@ -48,6 +48,7 @@ type Clause struct {
 	Names []string // for modifies/panics/props
 	Text  string
 	Line  int
+	When  *Expr
 }
 
 type Block struct {
@@ -58,6 +59,7 @@ type Block struct {
 	Inline  bool
 	Props   []string
 	used    bool
+	expanded bool
 }
 
 type Spec struct {
@@ -131,7 +133,7 @@ func loadContracts(path string) (*Contracts, error) {
 		word, rest := splitWord(l.text)
 		fail := func(err error) error { return fmt.Errorf("%s:%d: %v", path, l.no, err) }
 		switch word {
-		case "func", "interface", "extern", "functype", "closure":
+		case "func", "interface", "extern", "functype", "closure", "template":
 			kind := word
 			if kind == "closure" {
 				kind = "func"
@@ -175,7 +177,15 @@ func loadContracts(path string) (*Contracts, error) {
 			}
 			cl := &Clause{Kind: word, Line: l.no, Text: rest}
 			switch word {
-			case "requires", "assume", "decreases", "acquires", "releases":
+			case "requires", "assume", "decreases", "acquires", "releases", "unfold":
+				if k := strings.Index(rest, " when "); k >= 0 && (word == "releases" || word == "acquires") {
+					we, err := parseExpr(rest[k+6:])
+					if err != nil {
+						return nil, fail(err)
+					}
+					cl.When = we
+					rest = rest[:k]
+				}
 				e, err := parseExpr(rest)
 				if err != nil {
 					return nil, fail(err)
@@ -228,14 +238,54 @@ func loadContracts(path string) (*Contracts, error) {
 				}
 			case "inline":
 				cur.Inline = true
-			case "pure", "nopanic", "mayalloc", "trusted", "implements":
+			case "pure", "nopanic", "mayalloc", "trusted", "implements", "include":
 			default:
 				return nil, fail(fmt.Errorf("unknown clause %q", word))
 			}
 			cur.Clauses = append(cur.Clauses, cl)
 		}
 	}
+	// expand `implements I.m` / `include T` into the clauses of the referenced block
+	for _, b := range cs.Order {
+		if err := cs.expand(b, 0); err != nil {
+			return nil, err
+		}
+	}
 	return cs, nil
+}
+
+func (cs *Contracts) expand(b *Block, depth int) error {
+	if b.expanded {
+		return nil
+	}
+	if depth > 10 {
+		return fmt.Errorf("include cycle at %s", b.Name)
+	}
+	var out []*Clause
+	for _, c := range b.Clauses {
+		var ref *Block
+		switch c.Kind {
+		case "implements":
+			ref = cs.get("interface", strings.TrimSpace(c.Text))
+		case "include":
+			ref = cs.get("template", strings.TrimSpace(c.Text))
+		default:
+			out = append(out, c)
+			continue
+		}
+		if ref == nil {
+			return fmt.Errorf("%s:%d: %s %q: no such block", cs.File, c.Line, c.Kind, c.Text)
+		}
+		if err := cs.expand(ref, depth+1); err != nil {
+			return err
+		}
+		ref.used = true
+		out = append(out, ref.Clauses...)
+		out = append(out, c) // keep the marker
+	}
+	b.Clauses = out
+	b.expanded = true
+	return nil
 }
 
 // labelEnd finds "label:" at the start of an ensures clause (label is one identifier).
@@ -429,6 +479,25 @@ func (p *parser) expr() (*Expr, error) {
 			}
 			break
 		}
+		var trig []*Expr
+		if p.isOp("{") {
+			p.next()
+			for {
+				te, err := p.expr()
+				if err != nil {
+					return nil, err
+				}
+				trig = append(trig, te)
+				if p.isOp(",") {
+					p.next()
+					continue
+				}
+				break
+			}
+			if err := p.expect("}"); err != nil {
+				return nil, err
+			}
+		}
 		if err := p.expect("::"); err != nil {
 			return nil, err
 		}
@@ -436,7 +505,7 @@ func (p *parser) expr() (*Expr, error) {
 		if err != nil {
 			return nil, err
 		}
-		q.Args = []*Expr{body}
+		q.Args = append([]*Expr{body}, trig...)
 		return q, nil
 	}
 	return p.cond()
